@@ -233,7 +233,8 @@ class State:
 class FnAnalysis:
     """One body: fixpoint of State per block; then obligations are proved against the states."""
 
-    def __init__(self, P, fn, entry_facts=(), entry_bools=()):
+    def __init__(self, P, fn, entry_facts=(), entry_bools=(), assumed=None):
+        self.assumed = assumed or {}  # block -> [constraints] assumed to hold after the terminator (assume-after-assert)
         self.P = P
         self.F = P.F
         self.E = P.E
@@ -527,6 +528,8 @@ class FnAnalysis:
     def _term_transfer(self, st, bi, t):
         """state after the terminator's own effect, before edge facts: for calls, kills + ensures"""
         fn = self.fn
+        if bi in self.assumed:
+            st = self._add(st, self.assumed[bi])
         if t["k"] != "call":
             return st
         ok, err, is_res = self.E.call_writes(fn, self.pts, t)
